@@ -23,6 +23,16 @@ GROUPS = [
     ('rules_build', 'rule_bottomup'),
     ('rules_build', 'rule_queue'),
     ('rules_build', 'rule_error_discipline'),
+    ('rules_graph', 'rule_graph_sync'),
+    ('rules_graph', 'rule_ord'),
+    ('rules_graph', 'rule_graph_getters'),
+    ('rules_graph', 'rule_graph_search'),
+    ('rules_graph', 'rule_graph_rank'),
+    ('rules_graph', 'rule_graph_cycle'),
+    ('rules_misc', 'rule_tracker'),
+    ('rules_misc', 'rule_identity'),
+    ('rules_misc', 'rule_map'),
+    ('rules_misc', 'rule_determinism'),
 ]
 
 
